@@ -44,7 +44,7 @@ def design_check(ctx, lo, hi, maxlen):
 def gen_cases(ctx, lo, hi, maxlen):
     d = ctx.tlc_dir("trees")
     write(os.path.join(d, "MCCases.cfg"),
-          "CONSTANTS Lo = %d Hi = %d MaxLen = %d\nINIT Init\nNEXT Next\nINVARIANT Emit\n" % (lo, hi, maxlen))
+          "CONSTANTS Lo = %d Hi = %d MaxLen = %d\nINIT Init\nNEXT Next\nINVARIANT Emit\nINVARIANT ReplicationLaw\n" % (lo, hi, maxlen))
     res = ctx.tlc(d, "IntervalCases", "MCCases.cfg", workers=1)
     cases = list(res.tagged("CASE"))
     if not cases:
@@ -117,6 +117,44 @@ def replay_case(ctx, case, emb_name):
         ctx.count(2)
     if nontrivial:
         ctx.nontrivial.add(json.dumps(S))
+
+
+def replay_replicated(ctx, case, dtype, reps):
+    """Hits is defined interval by interval, so storing the sequence S `reps` times over (S \\o S \\o ...) must answer
+    every query with the TLC answer for S shifted by every multiple of Len(S).  Run with compact numeric dtypes and
+    more rows than such a dtype can count: the returned row numbers are positions, not values of the bounds' type."""
+    from typhon.trees import IntervalTree
+    S = case["S"]
+    if not S:
+        return
+    n = len(S)
+    arr = np.array([[a + 1, b + 1] for a, b in S] * reps, dtype=dtype)     # + 1: queries reach Lo - 1, uint8 has no -1
+    info = {"embedding": "replicated x%d, dtype %s" % (reps, np.dtype(dtype).name)}
+    try:
+        tree = IntervalTree(arr)
+        keys = list(case["iq"].keys())
+        Q = [parse_key(k) for k in keys]
+        res = tree.query(np.array([[a + 1, b + 1] for a, b in Q], dtype=dtype))
+        pts = sorted(int(k) for k in case["pq"])
+        pres = tree.query_points(np.array([x + 1 for x in pts], dtype=dtype))
+    except Exception as e:
+        ctx.violation("replicated-raises-" + type(e).__name__, {"abstract": {"S": S, "reps": reps}, "concrete": info,
+                                                                "observed": repr(e)})
+        return
+    for k, q, r in zip(keys, Q, res):
+        exp = sorted(i + j * n for i in case["iq"][k] for j in range(reps))
+        ctx.count(1)
+        if norm(r) != exp:
+            ctx.violation("replicated-query-wrong-result", {"abstract": {"S": S, "reps": reps, "q": q}, "concrete": info,
+                                                            "expected": exp[:20], "observed": norm(r)[:20]})
+            return
+    for p_, r in zip(pts, pres):
+        exp = sorted(i + j * n for i in case["pq"][str(p_)] for j in range(reps))
+        ctx.count(1)
+        if norm(r) != exp:
+            ctx.violation("replicated-points-wrong-result", {"abstract": {"S": S, "reps": reps, "p": p_}, "concrete": info,
+                                                             "expected": exp[:20], "observed": norm(r)[:20]})
+            return
 
 
 def classify(S, kind, q, exp, obs):
@@ -202,6 +240,15 @@ def run(ctx):
         for c in cases:
             for e in embs:
                 replay_case(ctx, c, e)
+    # the same stored sequence many times over, in compact dtypes that cannot count the rows
+    reps_of = {"int8": 70, "uint8": 130, "float16": 1100, "int16": 12000, "float32": 50}
+    pick = [c for c in cases if len(c["S"]) == 3]
+    for n, c in enumerate(ctx.rng.sample(pick, 40 if quick else 400)):
+        dts = list(reps_of)
+        dtp = dts[n % len(dts)]
+        if dtp == "int16" and n >= (10 if quick else 50):
+            dtp = "int8"
+        replay_replicated(ctx, c, dtp, reps_of[dtp])
     ctx.traces += len(cases)
     ctx.sample({"S": cases[len(cases) // 2]["S"], "oracle_iq": cases[len(cases) // 2]["iq"]})
     # 3. code -> spec trace validation
